@@ -37,10 +37,11 @@ REQUIRED = {'sends_judged': 300, 'delivered': 100, 'refused': 100, 'name_checks'
 SHARDS = {'quick': 4, 'thorough': 16}
 TIMEOUT = {'quick': 300, 'thorough': 3000}
 
-PHASES = ['no_task', 'finalized_no_task', 'task_created', 'run_task_created', 'start_refused_eager', 'initialising', 'running', 'abort_requested',
+PHASES = ['no_task', 'finalized_no_task', 'task_created', 'run_task_created', 'start_refused_eager', 'first_iteration', 'initialising', 'running', 'abort_requested',
           'shutdown_called', 'ctrl_shutdown_requested', 'in_stop',
-          'in_stop_async', 'finished_shutdown', 'finished_error', 'finished_ctrl', 'after_sigterm']
-DELIVER = {'initialising', 'running'}
+          'in_stop_async', 'finished_shutdown', 'finished_error', 'finished_ctrl', 'after_sigterm',
+          'abandoned_loop_abort']
+DELIVER = {'first_iteration', 'initialising', 'running'}
 DESTS = ['probe', 'input', 'counter', 'fsm', 'pinput', 'pfsm']   # p* = persistent, storage set
 
 SHAPES = [
@@ -244,6 +245,16 @@ def run_phase_case(case, ctx):
             await asyncio.sleep(0)
             await circuit.shutdown()
             return
+        if phase == 'first_iteration':
+            # the documented low-level start: the simulation task has made its first step (the
+            # blocks are started, the circuit accepts events), none of the initialisation
+            # passes has run yet
+            await asyncio.sleep(0)
+            res['first_iteration_state'] = (circuit.is_ready(), task.done())
+            do_send(phase)
+            await circuit.wait_init()
+            await circuit.shutdown()
+            return
         if phase == 'initialising':
             await asyncio.sleep(1)      # gate.init_async is sleeping (virtual time)
             res['initialising_state'] = (circuit.is_ready(), task.done())
@@ -298,6 +309,37 @@ def run_phase_case(case, ctx):
         if phase == 'finished_shutdown':
             do_send(phase)
 
+    if phase == 'abandoned_loop_abort':
+        # the circuit was started in an event loop that was then closed with the simulation task
+        # still pending (an abandoned loop); the application stops the circuit with abort():
+        # Task.cancel() may fail there ('Event loop is closed'), still the circuit is stopped
+        import warnings
+        loop = vloop.VirtualLoop()
+
+        async def first_part():
+            edzed.reset_circuit()
+            build()
+            circuit = edzed.get_circuit()
+            asyncio.create_task(circuit.run_forever())
+            await circuit.wait_init()
+        with warnings.catch_warnings():
+            warnings.simplefilter('ignore')
+            loop.run_until_complete(first_part())
+            loop.close()
+            circuit = edzed.get_circuit()
+            try:
+                circuit.abort(RuntimeError('vf: stop of an abandoned circuit'))
+                res['abort_exc'] = None
+            except RuntimeError as err:
+                res['abort_exc'] = repr(err)
+            do_send(phase)
+            try:
+                edzed.reset_circuit()
+            except Exception as err:    # pylint: disable=broad-except
+                res['reset_exc'] = repr(err)
+            import gc
+            gc.collect()
+        return res, hist
     loop, _, exc = vloop.run(main)
     edzed.reset_circuit()
     if exc is not None and not isinstance(exc, vloop.Deadlock):
@@ -325,6 +367,8 @@ def judge_phase(case, res, ctx):
         raise core.Violation('harness-phase-not-reached', f"{where}: {res.get('eager_refused')!r}")
     if phase == 'shutdown_called' and res.get('shutdown_called_state') != (False, False):
         raise core.Violation('harness-phase-not-reached', f"{where}: {res.get('shutdown_called_state')}")
+    if phase == 'first_iteration' and res.get('first_iteration_state') != (True, False):
+        raise core.Violation('harness-phase-not-reached', f"{where}: {res.get('first_iteration_state')}")
     if phase == 'initialising' and res.get('initialising_state') != (True, False):
         raise core.Violation('harness-phase-not-reached', f"{where}: {res.get('initialising_state')}")
     if phase not in DELIVER:
